@@ -2,6 +2,8 @@
 
 package common
 
+import "sync/atomic"
+
 // Export-only hooks for the verification harness in /verif (build tag "verif").
 
 // VerifSetGlobalCPRNG replaces the process-wide fast random generator by one with a known
@@ -17,3 +19,9 @@ func VerifSetGlobalCPRNG(seed *[32]byte) error {
 
 // VerifGlobalCPRNGCounter returns the number of keystream blocks handed out so far.
 func VerifGlobalCPRNGCounter() uint64 { return globalCprng.counter }
+
+// VerifCounter returns the number of keystream blocks this generator has handed out (modulo 2^64).
+func (c *CPRNG) VerifCounter() uint64 { return atomic.LoadUint64(&c.counter) }
+
+// VerifSetCounter positions the block counter (to exercise the wrap-around at 2^64).
+func (c *CPRNG) VerifSetCounter(x uint64) { atomic.StoreUint64(&c.counter, x) }
